@@ -1373,3 +1373,40 @@ def r_alias_key_fresh(ctx, repo):
                 rule.ok(f.loc(s), '%s registers its node before any child is represented' % f.name)
     rule.require_min(3, 'alias registrations')
     return rule
+
+
+# --------------------------------------------------------------------------------------------- R-NO-GENERATOR-AROUND-CALLBACK
+def r_no_generator_around_callback(ctx, repo):
+    """PEP 479: a StopIteration that leaves a generator frame is replaced by RuntimeError.  Every generator function and
+    generator expression of the package from inside which caller-supplied code can run therefore changes one particular
+    exception of the caller's code on its way out."""
+    from . import rules_fault as RF
+    rule = ctx.rule('R-NO-GENERATOR-AROUND-CALLBACK', 'no generator frame of the package (generator function or generator expression) '
+                                                      'lies between caller-supplied code and the caller: a StopIteration raised by '
+                                                      'the caller\'s constructor / representer / stream would arrive as RuntimeError')
+    g = RF.NameGraph(repo)
+    n = 0
+    for f in repo.all_functions():
+        if f.module.kind != 'py':
+            continue
+        frames = []
+        if f.is_generator:
+            frames.append((f.node, None, 'generator function %s' % f.qualname))
+        for x in walk_function(f.node):
+            if isinstance(x, ast.GeneratorExp):
+                frames.append((x, [x.elt] + [c for gen in x.generators for c in [gen.iter] + list(gen.ifs)],
+                               'generator expression in %s' % f.qualname))
+        for node, parts, what in frames:
+            n += 1
+            reach = g.may_reach_supplied(f, nodes=[ast.Expr(value=p) for p in parts] if parts is not None else None)
+            if reach is None:
+                rule.ok(f.loc(node), '%s runs no caller-supplied code' % what)
+                continue
+            kind = 'genexp' if parts is not None else 'genfunc'
+            rule.fail('%s|%s' % (f.qualname, kind), f.module.rel, getattr(node, 'lineno', f.node.lineno), f.qualname,
+                      what, '%s can run caller-supplied code (%s, via %s): a StopIteration raised there leaves through this generator '
+                      'frame and reaches the caller as RuntimeError("generator raised StopIteration") instead of unchanged'
+                      % (what, reach[0], ' -> '.join(reach[1][:4])),
+                      inp='a constructor registered with add_constructor that raises StopIteration, used below a sequence / mapping')
+    rule.require_min(8, 'generator frames')
+    return rule
